@@ -180,6 +180,37 @@ func runFixtures(vdir string) (map[string]string, error) {
 					return !strings.Contains(cnd, pname(f.Params[0]))
 				})
 			}
+		case strings.HasPrefix(rest, "Reentrant"):
+			engine = "E3b re-entrancy"
+			rr := NewReport("fixtures", "quick", p.Roots[0].Fset, dir)
+			checkNoReentrancy(rr, "fx", all, nil)
+			for _, fd := range rr.Findings {
+				if fd.Func == fnName(f) {
+					got = true
+				}
+			}
+		case strings.HasPrefix(rest, "Held"):
+			engine = "E3c guarded-by"
+			rr := NewReport("fixtures", "quick", p.Roots[0].Fset, dir)
+			checkGuardedBy(rr, "fx", all, []guardSpec{{Owner: "fx.table", Field: "rows", Mutex: "mu"}}, func(g *ssa.Function) string {
+				if g != f {
+					return "not the fixture under test"
+				}
+				return ""
+			})
+			got = len(rr.Findings) > 0
+		case strings.HasPrefix(rest, "UnderLock"):
+			engine = "E3d calls under the write lock"
+			rr := NewReport("fixtures", "quick", p.Roots[0].Fset, dir)
+			checkNoCallsUnderWriteLock(rr, "fx", f, func(string) bool { return true }, func(string) bool { return false })
+			got = len(rr.Findings) > 0
+		case strings.HasPrefix(rest, "MutInput"):
+			engine = "input mutation"
+			eachInstr(f, func(in ssa.Instruction) {
+				if writesInput(f, in) != "" {
+					got = true
+				}
+			})
 		case strings.HasPrefix(rest, "Draw"):
 			engine = "draw order"
 			steps, ordered := drawSeq(f, f.Params[0])
